@@ -153,7 +153,11 @@ type NodeScript struct {
 	Variant     int        `json:"variant,omitempty"`
 	Items       []ItemDisp `json:"items,omitempty"`        // Outcome == items: per item of the payload
 	VersionFail bool       `json:"version_fail,omitempty"` // NodeVersion fails while this step is the current one
-	CtxAware    bool       `json:"ctx_aware,omitempty"`    // the request is aborted when the caller's context is done (as the http client does)
+	// VersionDelay: latency of NodeVersion while this step is the current one, independent of the
+	// submission behaviour: "" | slow (VersionMs, 50-100) | stall (answers after timeout+2.5 s) | hang (until its context is done)
+	VersionDelay string `json:"version_delay,omitempty"`
+	VersionMs    int    `json:"version_ms,omitempty"`
+	CtxAware     bool   `json:"ctx_aware,omitempty"` // the request is aborted when the caller's context is done (as the http client does)
 }
 
 // Step is one submission.
@@ -208,7 +212,7 @@ func classOf(kind string, id *NodeID, n *NodeScript) (string, string) {
 	case tol+foreign+real == 0:
 		return "accept", "yes"
 	case foreign+real == 0:
-		if n.VersionFail {
+		if n.VersionFail || n.VersionDelay == "stall" || n.VersionDelay == "hang" {
 			return "tolerated-version-unavailable", "either"
 		}
 		return "tolerated", "yes"
@@ -253,6 +257,16 @@ func genScript(t *rapid.T, kind string, items int, id *NodeID, persona string, f
 		n.VersionFail = rapid.Bool().Draw(t, "versionFail")
 	} else {
 		n.VersionFail = rapid.IntRange(0, 29).Draw(t, "versionFail") == 0
+	}
+	if !immediateSvc {
+		if flaky {
+			n.VersionDelay = weighted(t, "versionDelay", "", 6, "slow", 2, "stall", 2, "hang", 2)
+		} else {
+			n.VersionDelay = weighted(t, "versionDelay", "", 20, "slow", 2, "stall", 1, "hang", 1)
+		}
+		if n.VersionDelay == "slow" {
+			n.VersionMs = rapid.IntRange(50, 100).Draw(t, "versionMs")
+		}
 	}
 	if cancelled {
 		n.CtxAware = rapid.Bool().Draw(t, "ctxAware")
@@ -468,14 +482,36 @@ type node struct {
 
 type nodeV struct{ *node }
 
-func (n nodeV) NodeVersion(_ context.Context, opts *api.NodeVersionOpts) (*api.Response[string], error) {
+func (n nodeV) NodeVersion(ctx context.Context, opts *api.NodeVersionOpts) (*api.Response[string], error) {
 	if opts == nil {
 		return nil, errors.Join(errors.New("no options specified"), eth2client.ErrInvalidOptions)
 	}
 	if n.id == nil {
 		return &api.Response[string]{Data: "decoy/v0", Metadata: map[string]any{}}, nil
 	}
-	if n.w.c.Steps[n.w.cur.Load()].Nodes[n.idx].VersionFail {
+	step := n.w.cur.Load()
+	script := &n.w.c.Steps[step].Nodes[n.idx]
+	switch script.VersionDelay {
+	case "slow":
+		select {
+		case <-time.After(time.Duration(script.VersionMs) * time.Millisecond):
+		case <-n.w.releaseAll:
+		}
+	case "stall":
+		select {
+		case <-time.After(time.Until(n.w.starts[step].Add(lateAfter))):
+		case <-n.w.releaseAll:
+		}
+	case "hang":
+		select {
+		case <-ctx.Done():
+			return nil, errors.Join(errors.New("failed to call GET endpoint"),
+				&url.Error{Op: "Get", URL: "http://" + n.name + ":5052/eth/v1/node/version", Err: context.Cause(ctx)})
+		case <-time.After(hangCeiling):
+		case <-n.w.releaseAll:
+		}
+	}
+	if script.VersionFail {
 		return nil, errors.Join(errors.New("failed to call GET endpoint"),
 			&url.Error{Op: "Get", URL: "http://" + n.name + ":5052/eth/v1/node/version", Err: errors.New("dial tcp 10.0.0.1:5052: connect: connection refused")})
 	}
@@ -1027,6 +1063,15 @@ func validCase(c *Case) string {
 			default:
 				return "delay"
 			}
+			switch n.VersionDelay {
+			case "", "stall", "hang":
+			case "slow":
+				if n.VersionMs < 1 || n.VersionMs > 120 {
+					return "version delay"
+				}
+			default:
+				return "version delay"
+			}
 		}
 	}
 	return ""
@@ -1138,13 +1183,13 @@ func run(c *Case) *obs {
 		p := w.pls[s]
 		ctx, cancel := context.WithCancel(parent)
 		defer cancel()
-		w.cur.Store(int64(s))
 		done := make(chan result, 1)
 		if st.Cancel == "pre" {
 			cancel()
 		}
 		start := time.Now()
 		w.starts[s] = start
+		w.cur.Store(int64(s))
 		if st.Cancel != "" && st.Cancel != "pre" {
 			tm := time.AfterFunc(cancelAt[st.Cancel], cancel)
 			defer tm.Stop()
@@ -1185,7 +1230,7 @@ func run(c *Case) *obs {
 			for i, n := range nodes {
 				if exact(n.snapshot(s).ids, st.Items) {
 					so.nodes[i].fullEarly = true
-				} else {
+				} else if !versionPending(&st.Nodes[i]) {
 					all = false
 				}
 			}
@@ -1374,7 +1419,7 @@ func judgeStep(t ev.TB, c *Case, o *obs, s int) bool {
 			}
 			continue
 		}
-		if enough && !no.fullEarly {
+		if enough && !no.fullEarly && !versionPending(&st.Nodes[i]) {
 			violation(t, svcTag+"not-delivered:"+k, c, "%s: process concurrency %d >= %d nodes, but node %d had been offered items %v of 0..%d while the slow/hanging nodes were still pending (%v after the call returned at %v with %v); nodes: %s",
 				where, c.PC, len(c.Nodes), i, no.ids, st.Items-1, deliverCeil, so.r, so.err, describe(so))
 			return false
@@ -1397,7 +1442,7 @@ func judgeStep(t ev.TB, c *Case, o *obs, s int) bool {
 		if no.ok != "no" && no.finished < so.r {
 			okBeforeReturn = true
 		}
-		if no.ok == "yes" && no.finished <= earlyBy {
+		if no.ok == "yes" && no.finished <= earlyLimit(&st.Nodes[i], no.class) {
 			okEarly = true
 		}
 		if no.ok == "no" && no.finished < so.r {
@@ -1448,7 +1493,7 @@ func judgeStep(t ev.TB, c *Case, o *obs, s int) bool {
 	} else if !success && okEarly && st.Cancel == "" {
 		cl := ""
 		for i := range so.nodes {
-			if no := &so.nodes[i]; no.ok == "yes" && no.done && no.full && no.finished <= earlyBy {
+			if no := &so.nodes[i]; no.ok == "yes" && no.done && no.full && no.finished <= earlyLimit(&st.Nodes[i], no.class) {
 				cl = no.class
 				break
 			}
@@ -1456,6 +1501,22 @@ func judgeStep(t ev.TB, c *Case, o *obs, s int) bool {
 		violation(t, "missed-success:"+k+":"+cl, c, "%s: error %q returned at %v although a node had answered (%s) within %v of a %v timeout; nodes: %s", where, so.err, so.r, cl, earlyBy, timeout, describe(so))
 	}
 	return true
+}
+
+// versionPending: the node does not answer the version request before the timeout during this
+// step.  Vouch asks a node for its version in that node's own goroutine before it submits to it, so
+// such a node is itself one of the "bad" nodes: it gets the payload when the version request ends.
+// earlyLimit: a tolerated rejection can only be recognised after another (possibly slow) version
+// request, which eats into the guard band.
+func earlyLimit(n *NodeScript, class string) time.Duration {
+	if class == "tolerated" && n.VersionDelay == "slow" {
+		return earlyBy - time.Duration(n.VersionMs)*time.Millisecond
+	}
+	return earlyBy
+}
+
+func versionPending(n *NodeScript) bool {
+	return n.VersionDelay == "stall" || n.VersionDelay == "hang"
 }
 
 func notReturned(o *obs) int {
@@ -1585,6 +1646,9 @@ func check(t ev.TB, c *Case) {
 			if st.Nodes[i].VersionFail {
 				labelSet["version-fail"] = true
 			}
+			if vd := st.Nodes[i].VersionDelay; vd != "" && c.Service == "multinode" {
+				labelSet["version-delay:"+vd] = true
+			}
 			if d := st.Nodes[i].Delay; d == "late" || d == "hang" {
 				pendingBefore = true
 			}
@@ -1612,7 +1676,7 @@ func check(t ev.TB, c *Case) {
 		okPlanned, okEarly, okBand := false, false, false
 		for i := range so.nodes {
 			no := &so.nodes[i]
-			if no.ok == "yes" && (st.Nodes[i].Delay == "none" || st.Nodes[i].Delay == "slow") && c.PC >= len(c.Nodes) && st.Cancel == "" {
+			if no.ok == "yes" && (st.Nodes[i].Delay == "none" || st.Nodes[i].Delay == "slow") && st.Nodes[i].VersionDelay == "" && c.PC >= len(c.Nodes) && st.Cancel == "" {
 				okPlanned = true
 			}
 			if no.ok == "yes" && no.done && no.full {
